@@ -355,7 +355,7 @@ def stale_skip_witness(run: Any) -> str | None:
 
 def stale_message_after_rearm_witness(run: Any) -> str | None:
     """Mechanism classifier (same root as the two above: messages carry no iteration): a StartTask / RunTask /
-    CompleteTask / CompleteStage message of a stage was queued BEFORE a jump or an operator restart re-armed that
+    CompleteTask / CompleteStage / CancelStage message of a stage was queued BEFORE a jump or an operator restart re-armed that
     stage (whatever its status then: RUNNING, CANCELED, ...) and took effect on the re-armed stage AFTERWARDS."""
     import json as _json
 
@@ -370,7 +370,7 @@ def stale_message_after_rearm_witness(run: Any) -> str | None:
         return None
     pushed: dict[str, tuple[int, str, str]] = {}
     for a in run.audit:
-        if a["kind"] == "queue" and a["op"] == "ins" and a["c"] in ("StartTask", "RunTask", "CompleteTask", "CompleteStage"):
+        if a["kind"] == "queue" and a["op"] == "ins" and a["c"] in ("StartTask", "RunTask", "CompleteTask", "CompleteStage", "CancelStage"):
             try:
                 sid = _json.loads(a["d"] or "{}").get("stage_id")
             except Exception:
